@@ -416,7 +416,7 @@ def get_functions_and_classes(
     emitter = get_emitter(emit_name)
     return tuple(
         print("\nGenerating: {name!r}".format(name=name))
-        or global__all__.append(name_tpl.format(name=name))
+        or global__all__.append(ensure_valid_identifier(name_tpl.format(name=name)))
         or emitter(
             get_parser(obj, parse_name)(obj),
             emit_default_doc=emit_default_doc,
